@@ -4,7 +4,7 @@ NAME=$1; shift
 cd /verif
 git -C /repo apply /verif/seeded/$NAME/patch.diff || { echo "patch does not apply"; exit 2; }
 for P in "$@"; do
-  python3 tools/check.py $P --tier quick > /tmp/seedchk_${NAME}_$P.log 2>&1; RC=$?
+  VERIF_DEV_SKIP_COQ=${SEED_SKIP_COQ:-0} python3 tools/check.py $P --tier quick > /tmp/seedchk_${NAME}_$P.log 2>&1; RC=$?
   echo "seed=$NAME check=$P rc=$RC $(grep -c VIOLATION /tmp/seedchk_${NAME}_$P.log) violation lines"
   grep -A1 -m1 "VIOLATION" /tmp/seedchk_${NAME}_$P.log | tail -1 | cut -c1-300
 done
